@@ -49,6 +49,13 @@ class tar_syncer(http_syncer, base.ExternalSyncer):
         repo_name = os.path.basename(basedir)
         self.tempdir = os.path.join(repos_dir, f".{repo_name}.update")
         self.tempdir_old = os.path.join(repos_dir, f".{repo_name}.old")
+        # recover from an earlier sync that was interrupted (its atexit cleanups
+        # never ran): put the repo back if it was moved away but not replaced,
+        # then drop the stale staging dirs so they can be created again
+        if not os.path.lexists(basedir) and os.path.isdir(self.tempdir_old):
+            os.rename(self.tempdir_old, basedir)
+        shutil.rmtree(self.tempdir, ignore_errors=True)
+        shutil.rmtree(self.tempdir_old, ignore_errors=True)
         # remove tempdirs on exit
         atexit.register(partial(shutil.rmtree, self.tempdir, ignore_errors=True))
         atexit.register(partial(shutil.rmtree, self.tempdir_old, ignore_errors=True))
